@@ -128,6 +128,9 @@ class World:
     N_CLIENT_REQUESTS = 8
 
     def __init__(self, proto, role, logger, handshake="confirmed"):
+        # logger == "wt": the layer is created with enable_webtransport=True (and without qlog)
+        self.wt = logger == "wt"
+        logger = logger is True
         self.proto, self.role, self.logger, self.handshake = proto, role, logger, handshake
         if handshake != "confirmed" and role != "client":
             raise core.HarnessError("only a client can be complete but unconfirmed")
@@ -135,7 +138,7 @@ class World:
                                                  confirmed=handshake == "confirmed")
         self.quic, self.peer = (server, client) if role == "server" else (client, server)
         if proto == "h3":
-            self.h = H3Connection(self.quic)
+            self.h = H3Connection(self.quic, enable_webtransport=self.wt)
         else:
             self.h = H0Connection(self.quic)
         if role == "client":
@@ -523,17 +526,21 @@ def h3_menu(role):
         ("10000-headers", fs(hv + many)),
         ("10000-headers-last-invalid", fs(hv + many + [(b"Z", b"v")])),
         ("blocked", R.blocked_field_section()),
+        # blocks like the one above (Required Insert Count 1), but once the insert has arrived its only line
+        # turns out to refer to an entry that does not exist: the error surfaces when the stream is RESUMED
+        ("blocked-then-invalid", R.section_prefix((1 % (2 * (4096 // 32))) + 1, 0, 0) + R.dynamic_indexed_line(5)),
         ("content-length-mismatch", fs(hv + [(b"content-length", b"5")])),
         ("content-length-2^64", fs(hv + [(b"content-length", b"18446744073709551616")])),
         ("content-length-4400-digits", fs(hv + [(b"content-length", b"9" * 4400)])),
     ]
     lite_h = ("empty-section", "garbage", "invalid-uppercase", "name-4096-uppercase",
-              "value-non-utf8", "blocked", "10000-headers-last-invalid")
+              "value-non-utf8", "blocked", "blocked-then-invalid", "10000-headers-last-invalid")
     for target in ("req", "push"):
         c = "%s:HEADERS-payload" % target
         for pn, pl in hp:
             for fin in (False, True):
-                if fin and not pn.startswith(("content-length", "blocked", "empty", "invalid-upper")):
+                if fin and (pn == "blocked-then-invalid" or
+                            not pn.startswith(("content-length", "blocked", "empty", "invalid-upper"))):
                     continue
                 out.append(M("%s:%s%s" % (c, pn, "+FIN" if fin else ""), c, target,
                              FR(R.HEADERS, pl), fin=fin, qpack=True,
@@ -691,11 +698,15 @@ def menu_for(proto, role):
 
 
 # ------------------------------------------------------------------ prefixes
-def prefix_messages(proto, role, prefix):
+def prefix_messages(proto, role, prefix, wt=False):
     if proto == "h0" or prefix == "none":
         return []
     hv = valid_headers(role)
-    out = [M("P:SETTINGS", "P", "ctrl", FR(R.SETTINGS, [V(1), V(4096), V(7), V(16)]))]
+    st = [V(1), V(4096), V(7), V(16)]
+    if wt:
+        # the peer enables extended CONNECT, HTTP datagrams and WebTransport as well
+        st += [V(0x8), V(1), V(0x33), V(1), V(0x2B603742), V(1)]
+    out = [M("P:SETTINGS", "P", "ctrl", FR(R.SETTINGS, st))]
     if prefix == "settings":
         return out
     out.append(M("P:request", "P", "newreq", FR(R.HEADERS, fs(hv)) + FR(R.DATA, b"hello"), fin=True))
@@ -724,7 +735,7 @@ def build_world(config, history, trace=None):
     proto, role, logger, prefix, handshake = norm_config(config)
     w = World(proto, role, logger, handshake)
     w.trace = trace
-    for m in prefix_messages(proto, role, prefix):
+    for m in prefix_messages(proto, role, prefix, wt=(logger == "wt")):
         if trace:
             trace("prefix %s" % m["label"])
         n = w.deliver(m, "whole")
@@ -980,6 +991,11 @@ def configs_for(proto, tier):
         for logger in (False, True):
             for prefix in PREFIXES:
                 out.append(("h3", role, logger, prefix, "confirmed"))
+    # the layer created with enable_webtransport=True (its SETTINGS, datagram and WEBTRANSPORT_STREAM paths differ);
+    # quick: first level only
+    for role in ("server", "client"):
+        for prefix in PREFIXES:
+            out.append(("h3", role, "wt", prefix, "confirmed"))
     # client whose HANDSHAKE_DONE was lost: the close goes out in Handshake and 1-RTT packets
     # (first level only; logger off)
     for prefix in PREFIXES:
@@ -1018,7 +1034,7 @@ def explore_proto(ctx, proto, depth, batch=24, time_cap=None):
         items = []
         skipped_cfg = 0
         for cfg, hist, succ in frontier:
-            if level >= 1 and proto == "h3" and cfg[2] is False:
+            if level >= 1 and proto == "h3" and (cfg[2] is False or (cfg[2] == "wt" and tier == "quick")):
                 # deeper levels: logger-on configurations only - a superset of the code
                 # paths of the logger-off ones
                 skipped_cfg += 1
